@@ -288,8 +288,8 @@ fn check_tables(acc: &mut Acc, max_len: usize) {
     last_changed.pop();
     last_changed.push(lc);
     // labels: the two ids, zeros, and near misses of id(A): upper case, same 8-character prefix, last digit changed
-    let labels = [ida.clone(), b.id(), "0".repeat(64), ida.to_uppercase(), format!("{}{}", &ida[..8], "0".repeat(56)), last_changed];
-    let label_names = ["id(A)", "id(B)", "zeros", "ID(A) upper case", "prefix8(A)+zeros", "id(A) last digit changed"];
+    let labels = [ida.clone(), b.id(), "0".repeat(64), ida.to_uppercase(), format!("{}{}", &ida[..8], "0".repeat(56)), last_changed, id_of(&a2), id_of(&b2)];
+    let label_names = ["id(A)", "id(B)", "zeros", "ID(A) upper case", "prefix8(A)+zeros", "id(A) last digit changed", "id(A2)", "id(B2)"];
     let tkeys: Vec<TKey> = vec![("A", a.public().clone()), ("B", b.public().clone()), ("A2 (A without hash-algorithm list)", a2), ("B2 (B without hash-algorithm list)", b2)];
     // near-miss labels and guises with every key, the plain labels with A and B as before
     let mut entry_alpha: Vec<(String, TKey)> = vec![];
